@@ -7,7 +7,7 @@ use crate::common::*;
 use crate::kern;
 use crate::pageheap;
 use raptorq::verif as rq;
-use raptorq::{SourceBlockDecoder, SourceBlockEncoder, SymbolSlab};
+use raptorq::{SourceBlockDecoder, SourceBlockEncoder, Symbol, SymbolSlab};
 use serde_json::{json, Map, Value};
 use std::io::Write;
 
@@ -86,6 +86,108 @@ fn slab_case(count: usize, size: usize, dest: usize, src: usize, mapping: u8, op
     Ok(())
 }
 
+/// the remaining public operations of Symbol / SymbolSlab (conversion, gather, bulk copy, the Symbol wrappers of
+/// the three kernels) against plain vectors; symbol size 0 is skipped where the API divides by it
+fn slab_helpers(count: usize, size: usize) -> Result<u64, String> {
+    let syms: Vec<Vec<u8>> = (0..count).map(|i| data_lcg(100 + i as u64, size)).collect();
+    let r = guarded(|| -> Result<u64, String> {
+        let mut n = 0u64;
+        if size > 0 {
+            // from_symbols / into_symbols, with and without a mapping
+            let slab = SymbolSlab::from_symbols(syms.iter().map(|v| Symbol::new(v.clone())).collect(), size);
+            if slab.len() != count || slab.symbol_size() != size {
+                return Err("from_symbols: wrong shape".into());
+            }
+            for i in 0..count {
+                if slab.get(i) != &syms[i][..] {
+                    return Err(format!("from_symbols: symbol {} differs", i));
+                }
+            }
+            let back: Vec<Vec<u8>> = slab.clone().into_symbols().into_iter().map(|x| x.into_bytes()).collect();
+            if back != syms {
+                return Err("into_symbols(from_symbols(x)) != x".into());
+            }
+            let mut mapped = slab.clone();
+            let order: Vec<usize> = (0..count).rev().collect();
+            mapped.set_reorder(order.clone());
+            let back: Vec<Vec<u8>> = mapped.into_symbols().into_iter().map(|x| x.into_bytes()).collect();
+            let want: Vec<Vec<u8>> = order.iter().map(|&p| syms[p].clone()).collect();
+            if back != want {
+                return Err("into_symbols with a reorder mapping does not follow the mapping".into());
+            }
+            // gather: every index list of length <= 3 over the symbols (with repetition)
+            let mut lists: Vec<Vec<usize>> = vec![vec![]];
+            for a in 0..count {
+                lists.push(vec![a]);
+                for b in 0..count {
+                    lists.push(vec![a, b]);
+                    lists.push(vec![b, a, b]);
+                }
+            }
+            for l in &lists {
+                let g = slab.gather(l);
+                if g.len() != l.len() {
+                    return Err(format!("gather({:?}): {} symbols", l, g.len()));
+                }
+                for (pos, &src) in l.iter().enumerate() {
+                    if g.get(pos) != &syms[src][..] {
+                        return Err(format!("gather({:?}): position {} is not symbol {}", l, pos, src));
+                    }
+                }
+                n += 1;
+            }
+            // copy_block_from: every (start, length) window; everything else untouched
+            for start in 0..count {
+                for len in 0..=(count - start) {
+                    let mut z = SymbolSlab::with_zeros(count, size);
+                    let block: Vec<u8> = (start..start + len).flat_map(|i| syms[i].clone()).collect();
+                    z.copy_block_from(start, &block);
+                    for i in 0..count {
+                        let want: Vec<u8> = if i >= start && i < start + len { syms[i].clone() } else { vec![0; size] };
+                        if z.get(i) != &want[..] {
+                            return Err(format!("copy_block_from({}, {} symbols): symbol {} wrong", start, len, i));
+                        }
+                    }
+                    n += 1;
+                }
+            }
+        }
+        // Symbol wrappers of the kernels
+        let a0 = &syms[0];
+        let b0 = &syms[count - 1];
+        let z = Symbol::zero(size);
+        if z.len() != size || z.is_empty() != (size == 0) || z.as_bytes().iter().any(|&x| x != 0) {
+            return Err("Symbol::zero".into());
+        }
+        for c in [2u8, 0x53, 0xFF] {
+            let mut x = Symbol::new(a0.clone());
+            x.mulassign_scalar(&rq::Octet::new(c));
+            let want: Vec<u8> = a0.iter().map(|&v| crate::rfcref::gf::mul(v, c)).collect();
+            if x.as_bytes() != &want[..] {
+                return Err(format!("Symbol::mulassign_scalar({:#04x}) size {}", c, size));
+            }
+            let mut x = Symbol::new(a0.clone());
+            x.fused_addassign_mul_scalar(&Symbol::new(b0.clone()), &rq::Octet::new(c));
+            let want: Vec<u8> = a0.iter().zip(b0.iter()).map(|(&v, &w)| v ^ crate::rfcref::gf::mul(w, c)).collect();
+            if x.as_bytes() != &want[..] {
+                return Err(format!("Symbol::fused_addassign_mul_scalar({:#04x}) size {}", c, size));
+            }
+            n += 2;
+        }
+        let mut x = Symbol::new(a0.clone());
+        x += &Symbol::new(b0.clone());
+        let want: Vec<u8> = a0.iter().zip(b0.iter()).map(|(&v, &w)| v ^ w).collect();
+        if x.as_bytes() != &want[..] {
+            return Err(format!("Symbol += Symbol size {}", size));
+        }
+        Ok(n + 1)
+    });
+    match r {
+        Ok(x) => x.map_err(|m| format!("slab/symbol helpers ({} symbols of {} bytes): {}", count, size, m)),
+        Err(p) => Err(format!("slab/symbol helpers ({} symbols of {} bytes): panic {}", count, size, p)),
+    }
+}
+
 fn slab_grid(ctx: &Ctx, st: &Stats) {
     let sizes: Vec<usize> = if ctx.quick() { (0..=70).chain([127, 128, 129, 130]).collect() } else { (0..=130).collect() };
     let mut units: Vec<(usize, usize)> = vec![];
@@ -111,6 +213,10 @@ fn slab_grid(ctx: &Ctx, st: &Stats) {
                     }
                 }
             }
+        }
+        match slab_helpers(count, size) {
+            Ok(h) => { n += h; st.count("slab_helper_cases", h); }
+            Err(m) => st.violation(format!("slabhelpers:{}:{}", count, size), m, json!({"kind":"slabhelpers","count":count,"size":size})),
         }
         st.eval(n);
         st.count("slab_pair_cases", n);
@@ -239,6 +345,7 @@ fn child_part(ctx: &Ctx, st: &Stats, part: &str, verbose: bool) {
 fn run_case_here(case: &Value) -> Result<(), String> {
     match case["kind"].as_str().unwrap_or("kernel") {
         "slab" => slab_case(case["count"].as_u64().unwrap() as usize, case["size"].as_u64().unwrap() as usize, case["dest"].as_u64().unwrap() as usize, case["src"].as_u64().unwrap() as usize, case["mapping"].as_u64().unwrap() as u8, case["op"].as_u64().unwrap() as u8),
+        "slabhelpers" => slab_helpers(case["count"].as_u64().unwrap() as usize, case["size"].as_u64().unwrap() as usize).map(|_| ()),
         "workload" => workload(case["K"].as_u64().unwrap() as u32, case["T"].as_u64().unwrap() as u16, case["threshold"].as_u64().unwrap() as u32),
         "index" => crate::c10::replay(&json!({"kind":"index","a":case["a"],"b":case["b"],"c":0})),
         "miri" => {
